@@ -247,6 +247,21 @@ func extractOpcodeState(repo string) (string, error) {
 		}
 		fmt.Fprintf(&sb, "  (%q, %q, %q, [%s])%s\n", g.pkg, g.name, g.kind, strings.Join(ws, ", "), sep)
 	}
+	sb.WriteString("]\n\n")
+	cl, err := clockSites(repo)
+	if err != nil {
+		return "", err
+	}
+	sb.WriteString("/-- uses of the wall clock / timers (package time) in the simulator packages: (file, function, call).\n")
+	sb.WriteString("    A simulation step that consults the clock makes the trace depend on the host's load. -/\n")
+	sb.WriteString("def clockSites : List (String × String × String) := [\n")
+	for i, c := range cl {
+		sep := ","
+		if i == len(cl)-1 {
+			sep = ""
+		}
+		fmt.Fprintf(&sb, "  (%q, %q, %q)%s\n", c[0], c[1], c[2], sep)
+	}
 	sb.WriteString("]\n\nend BMV.Gen.OpcodeState\n")
 	return sb.String(), nil
 }
@@ -360,5 +375,95 @@ func processGlobals(repo string) ([]pkgGlobal, error) {
 			res = append(res, pkgGlobal{pkg, n, kinds[n], ws})
 		}
 	}
+	return res, nil
+}
+
+// clockSites lists every call of a function of package time (After, Now, Since, Sleep, NewTimer, NewTicker,
+// Tick, AfterFunc, Until) in the non-test files of the simulator packages (files guarded by the `verif`
+// build tag - the schedule-perturbation hook - are skipped).
+func clockSites(repo string) ([][3]string, error) {
+	var res [][3]string
+	clock := map[string]bool{"After": true, "Now": true, "Since": true, "Sleep": true, "NewTimer": true,
+		"NewTicker": true, "Tick": true, "AfterFunc": true, "Until": true}
+	for _, pkg := range []string{"procbuilder", "bondmachine", "simbox", "bmnumbers"} {
+		dir := filepath.Join(repo, "pkg", pkg)
+		fset := token.NewFileSet()
+		ents, err := os.ReadDir(dir)
+		if err != nil {
+			return nil, err
+		}
+		for _, e := range ents {
+			if e.IsDir() || !strings.HasSuffix(e.Name(), ".go") || strings.HasSuffix(e.Name(), "_test.go") {
+				continue
+			}
+			f, err := parser.ParseFile(fset, filepath.Join(dir, e.Name()), nil, parser.ParseComments|parser.SkipObjectResolution)
+			if err != nil {
+				return nil, err
+			}
+			guarded := false
+			for _, cg := range f.Comments {
+				if cg.Pos() < f.Package && strings.Contains(cg.Text(), "go:build verif") {
+					guarded = true
+				}
+			}
+			for _, cg := range f.Comments {
+				for _, c := range cg.List {
+					if c.Pos() < f.Package && strings.HasPrefix(c.Text, "//go:build") && strings.Contains(c.Text, "verif") && !strings.Contains(c.Text, "!verif") {
+						guarded = true
+					}
+				}
+			}
+			if guarded {
+				continue
+			}
+			timeName := ""
+			for _, im := range f.Imports {
+				if im.Path.Value == "\"time\"" {
+					timeName = "time"
+					if im.Name != nil {
+						timeName = im.Name.Name
+					}
+				}
+			}
+			if timeName == "" {
+				continue
+			}
+			for _, d := range f.Decls {
+				fd, ok := d.(*ast.FuncDecl)
+				if !ok || fd.Body == nil {
+					continue
+				}
+				fname := fd.Name.Name
+				if fd.Recv != nil && len(fd.Recv.List) == 1 {
+					t := fd.Recv.List[0].Type
+					if st, ok := t.(*ast.StarExpr); ok {
+						t = st.X
+					}
+					if id, ok := t.(*ast.Ident); ok {
+						fname = id.Name + "." + fname
+					}
+				}
+				ast.Inspect(fd.Body, func(x ast.Node) bool {
+					if c, ok := x.(*ast.CallExpr); ok {
+						if se, ok := c.Fun.(*ast.SelectorExpr); ok {
+							if id, ok := se.X.(*ast.Ident); ok && id.Name == timeName && clock[se.Sel.Name] {
+								res = append(res, [3]string{"pkg/" + pkg + "/" + e.Name(), fname, "time." + se.Sel.Name})
+							}
+						}
+					}
+					return true
+				})
+			}
+		}
+	}
+	sort.Slice(res, func(i, j int) bool {
+		if res[i][0] != res[j][0] {
+			return res[i][0] < res[j][0]
+		}
+		if res[i][1] != res[j][1] {
+			return res[i][1] < res[j][1]
+		}
+		return res[i][2] < res[j][2]
+	})
 	return res, nil
 }
